@@ -53,6 +53,9 @@ def run_cases(cases, d, tag):
     return res
 
 
+CHAIN_JUDGED = {}   # per tag: chained OPTIONAL queries whose rows are open and that were judged for kept rows (C10)
+
+
 def validate(events, d, tag, workers=14, per_chunk=4000):
     """events: list of dicts (QueryTrace events). Returns (rejects [(idx, prop, cls)], n_open, states)."""
     if not events:
@@ -85,6 +88,7 @@ def validate(events, d, tag, workers=14, per_chunk=4000):
             for v in vlib.parse_printed(r.printed, "REJECT"):
                 rejects.append((base + v[1] - 1, v[2], v[3]))
             opens += len(vlib.parse_printed(r.printed, "OPEN"))
+            CHAIN_JUDGED[tag] = CHAIN_JUDGED.get(tag, 0) + len({x[1] for x in vlib.parse_printed(r.printed, "CHAIN")})   # TLC evaluates the verdict several times per line
     return rejects, opens, states
 
 
@@ -593,6 +597,7 @@ def check_q(prop, v, tier, d, qs=None, covkey=None):
                   "queries_judged": len(events) - opens, "open_not_judged": opens,
                   "distinct_queries": len(distinct), "nonempty_results": stats["nonempty"],
                   "parser_rejected_not_judged": stats["parser_rejected"], "exec_errors": stats["exec_errors"],
+                  "chained_optional_queries_judged_for_kept_rows": CHAIN_JUDGED.get(prop, 0),
                   "parse_dump_mismatch": stats["dump_mismatch"], "parse_dump_mismatch_samples": mismatches, "rejected_events": len(rejects),
                   "results_too_large_for_the_model_not_judged": stats.get("too_large_for_the_model", 0),
                   "samples": [{"text": c["text"], "graphs": q["graphs"], "rows": r["rows"][:4]} for q, c, r in evq[:3]]})
